@@ -81,7 +81,6 @@ fn dyngroup_ops(repo: &str, out: &str) -> Result<String, String> {
             "cand.iter().partition(|entry|{entry.attribute_equality(Attribute::Class,&EntryClass::DynGroup.into())})",
             "for(dg_uuid,dg_filter)indyn_groups.insts.iter()",
             ".and_then(|f|f.resolve(&ident_internal,None,qs.get_resolve_filter_cache()))?;",
-            "ife.entry_match_no_index(&dg_filter_valid){Some(e.get_uuid())}else{None}",
             "if!matches.is_empty(){",
             "letfilt=filter!(f_eq(Attribute::Uuid,PartialValue::Uuid(*dg_uuid)));",
             "d_group.add_ava(Attribute::DynMember,Value::Refer(u))",
@@ -89,6 +88,15 @@ fn dyngroup_ops(repo: &str, out: &str) -> Result<String, String> {
             "if!n_dyn_groups.is_empty(){",
         ],
     )?;
+    // the incremental test, with or without the hidden-entry guard
+    let mask_create = match (
+        count(&pc_s, "ife.mask_recycled_ts().is_some()&&e.entry_match_no_index(&dg_filter_valid){Some(e.get_uuid())}else{None}"),
+        count(&pc_s, "ife.entry_match_no_index(&dg_filter_valid){Some(e.get_uuid())}else{None}"),
+    ) {
+        (1, 0) => true,
+        (0, 1) => false,
+        _ => return Err("post_create: the incremental test is not `[e.mask_recycled_ts().is_some() &&] e.entry_match_no_index(&dg_filter_valid)`".into()),
+    };
     let expect_create = expect_arg(&pc_s, "post_create")?;
     let inc_pos = pc_s.find("entry_match_no_index(").unwrap();
     let write_pos = pc_s.find("qs.internal_apply_writable(candidate_tuples)").unwrap();
@@ -112,8 +120,6 @@ fn dyngroup_ops(repo: &str, out: &str) -> Result<String, String> {
             "for(dg_uuid,dg_filter)indyn_groups.insts.iter()",
             ".and_then(|f|f.resolve(&ident_internal,None,qs.get_resolve_filter_cache()))?;",
             "pre_entries.iter().zip(post_entries.iter())",
-            "letpre_t=pre.entry_match_no_index(&dg_filter_valid);",
-            "letpost_t=post.entry_match_no_index(&dg_filter_valid);",
             "{Some(Ok(post.get_uuid()))}",
             "{Some(Err(post.get_uuid()))}else{None}",
             "Ok(u)=>d_group.add_ava(Attribute::DynMember,Value::Refer(u)),",
@@ -123,6 +129,18 @@ fn dyngroup_ops(repo: &str, out: &str) -> Result<String, String> {
             "if!n_dyn_groups.is_empty(){",
         ],
     )?;
+    let side = |who: &str| -> Result<bool, String> {
+        match (
+            count(&pm_s, &format!("let{who}_t={who}.mask_recycled_ts().is_some()&&{who}.entry_match_no_index(&dg_filter_valid);")),
+            count(&pm_s, &format!("let{who}_t={who}.entry_match_no_index(&dg_filter_valid);")),
+        ) {
+            (1, 0) => Ok(true),
+            (0, 1) => Ok(false),
+            _ => Err(format!("post_modify: `{who}_t` is not `[{who}.mask_recycled_ts().is_some() &&] {who}.entry_match_no_index(&dg_filter_valid)`")),
+        }
+    };
+    let mask_pre = side("pre")?;
+    let mask_post = side("post")?;
     let expect_modify = expect_arg(&pm_s, "post_modify")?;
     let full_pos = pm_s.find("Self::apply_dyngroup_change(").unwrap();
     let inc_pos = pm_s.find("entry_match_no_index(").unwrap();
@@ -185,6 +203,10 @@ def addTest (post pre force : Bool) : Bool := {add}\n\
 def remTest (post pre force : Bool) : Bool := {rem}\n\
 /-- apply_dyngroup_change: the search answer is filtered by `mask_recycled_ts().is_some()` -/\n\
 def fullMask : Bool := {mask}\n\
+/-- the incremental tests are guarded by `mask_recycled_ts().is_some()`: post_create's `e`, post_modify's `pre` and `post` -/\n\
+def maskCreate : Bool := {mc}\n\
+def maskPre : Bool := {mpre}\n\
+def maskPost : Bool := {mpost}\n\
 /-- the `expect` argument of apply_dyngroup_change in post_create / post_modify -/\n\
 def expectCreate : Bool := {ec}\n\
 def expectModify : Bool := {em}\n\
@@ -198,6 +220,9 @@ end Kanidm.DynGroup\n",
         add = add,
         rem = rem,
         mask = b(mask),
+        mc = b(mask_create),
+        mpre = b(mask_pre),
+        mpost = b(mask_post),
         ec = b(expect_create),
         em = b(expect_modify),
         cif = b(create_inc_first),
@@ -205,6 +230,6 @@ end Kanidm.DynGroup\n",
     );
     write_generated(out, "DynGroupOps", "server/lib/src/plugins/dyngroup.rs + server/lib/src/plugins/memberof.rs", &body)?;
     Ok(format!(
-        "DynGroupOps: add `{add}`, remove `{rem}`, mask {mask}, expect {expect_create}/{expect_modify}, create inc-first {create_inc_first}, modify full-first {modify_full_first}"
+        "DynGroupOps: add `{add}`, remove `{rem}`, full mask {mask}, incremental masks {mask_create}/{mask_pre}/{mask_post}, expect {expect_create}/{expect_modify}, create inc-first {create_inc_first}, modify full-first {modify_full_first}"
     ))
 }
